@@ -233,6 +233,7 @@ class ClientNode:
         self.ops = collections.deque()
         self.stall_until = 0.0
         self.counter = 0
+        self.n_update = 0           # number of UdpClient.update() calls made by this node's frame loop
         self.last_status = None
         self.connect_cbs = []      # (t, inc, value)
         self.alive = True
@@ -252,6 +253,7 @@ class ClientNode:
         c = self.client
         if c is not None:
             w.current_client = self
+            self.n_update += 1
             try:
                 c.update()
             except Exception as e:      # noqa
@@ -454,6 +456,7 @@ class World:
         self.sends = []            # app-level send records (dict)
         self.delivs = []           # (t, receiver, conn_name, sig, msgseq, payload-if-small)
         self.cbs = []              # (t, mid, value)
+        self.cb_ctx = {}           # mid -> [(value, client node name | None, number of that node's update() call | None)]
         self.hev = []              # handler events
         self.update_threads = set()
         self.n_updates = 0
@@ -551,6 +554,8 @@ class World:
 
             def cb(value, mid=mid):
                 self.cbs.append((k.now, mid, value))
+                cur = self.current_client
+                self.cb_ctx.setdefault(mid, []).append((value, cur.name if cur else None, cur.n_update if cur else None))
                 k.rec("cb", mid, value)
                 if raises == "always" or (raises == "on_false" and not value) or (raises == "on_true" and value):
                     # a buggy application callback: whatever it does is the application's problem, never the other sends'
